@@ -70,8 +70,11 @@ CCplx == [sqrt |-> "csqrt", abs |-> "cabs", cos |-> "ccos", sin |-> "csin", tan 
           bessel_j |-> "", real |-> "creal", imag |-> "cimag", conj |-> "conj"]
 Suffixed(b) == IF b = "" THEN {} ELSE {b, b \o "f", b \o "l"}
 \* fam: "r" real arguments, "c" complex arguments, "rc" undetermined (integer argument in a complex kernel)
+\* A function that exists in one family only (erf, atan2, fmin, fmax, jn, yn: real; creal, cimag, conj: complex) has
+\* that one name whatever the argument type - whether such a call is well-typed is UFL's business, not the printer's.
 CNames(f, fam) ==
   IF f \notin DOMAIN CReal THEN {f}
+  ELSE IF CReal[f] = "" \/ CCplx[f] = "" THEN Suffixed(CReal[f]) \cup Suffixed(CCplx[f])
   ELSE (IF fam \in {"r", "rc"} THEN Suffixed(CReal[f]) ELSE {}) \cup (IF fam \in {"c", "rc"} THEN Suffixed(CCplx[f]) ELSE {})
 
 \* numpy / math / scipy names with the same meaning
